@@ -21,6 +21,7 @@ func genG04Creds(repo string, w *Out) error {
 	if err != nil {
 		return err
 	}
+	amf := newAlpha(mf, "m", "hostport", "u", "ok", "host", "port", "err")
 	conds := g04IfConds(cr, mf.Body)
 	names := map[string]string{
 		"u, ok := m.hostport[hostport]; ok": "hostport",
@@ -32,24 +33,29 @@ func genG04Creds(repo string, w *Out) error {
 	splitSeen := false
 	for _, c := range conds {
 		switch {
-		case c == "m == nil":
-		case c == "err != nil":
+		case amf.Eq("m == nil", c):
+		case amf.Eq("err != nil", c):
 			splitSeen = true
 			order = append(order, "split")
 		default:
-			n, ok := names[c]
+			n, ok := "", false
+			for want, nm := range names {
+				if amf.Eq(want, c) {
+					n, ok = nm, true
+				}
+			}
 			if !ok {
 				return fmt.Errorf("CredentialsMatcher.Match: condition %q is not a shape the model knows", c)
 			}
 			order = append(order, n)
 		}
 	}
-	if !splitSeen || !g04Has(cr.CallsIn(mf.Body), "net.SplitHostPort(hostport)") {
+	if !splitSeen || !amf.In(cr.CallsIn(mf.Body), "net.SplitHostPort(hostport)") {
 		return fmt.Errorf("CredentialsMatcher.Match: net.SplitHostPort(hostport) / err check not found")
 	}
 	w.DefStrList("cred_lookup_order", order)
 	// every lookup branch must return what it found
-	if s := cr.Src(mf.Body); strings.Count(s, "return u }") != 3 || !strings.Contains(s, "return m.global }") || !strings.HasSuffix(s, "return nil }") {
+	if s := cr.Src(mf.Body); amf.Count(s, "return u }") != 3 || !amf.Contains(s, "return m.global }") || !strings.HasSuffix(s, "return nil }") {
 		return fmt.Errorf("CredentialsMatcher.Match: return statements not in the known shape")
 	}
 
@@ -74,15 +80,8 @@ func genG04Creds(repo string, w *Out) error {
 		}
 		return true
 	})
-	if _, ok := ports["httpPort"]; !ok {
-		return fmt.Errorf("MatchURL: const httpPort not found")
-	}
-	if _, ok := ports["httpsPort"]; !ok {
-		return fmt.Errorf("MatchURL: const httpsPort not found")
-	}
-	w.DefN("cred_http_port", uint64(ports["httpPort"]))
-	w.DefN("cred_https_port", uint64(ports["httpsPort"]))
-	if err := g04Need("MatchURL conditions", g04IfConds(cr, mu.Body), "m == nil || u == nil", `u.Port() == ""`); err != nil {
+	amu := newAlpha(mu, "m", "u", "hostport", "httpPort", "httpsPort")
+	if err := amu.Need("MatchURL conditions", g04IfConds(cr, mu.Body), "m == nil || u == nil", `u.Port() == ""`); err != nil {
 		return err
 	}
 	for lab, want := range map[string]string{
@@ -93,12 +92,21 @@ func genG04Creds(repo string, w *Out) error {
 		if err != nil {
 			return err
 		}
-		if len(b) != 1 || cr.Src(b[0]) != want {
+		if len(b) != 1 || !amu.Eq(want, cr.Src(b[0])) {
 			return fmt.Errorf("MatchURL case %s: body is not %q", lab, want)
 		}
 	}
-	if s := cr.Src(mu.Body); !strings.Contains(s, "switch u.Scheme") || !strings.HasSuffix(s, "return m.Match(hostport) }") ||
-		!strings.Contains(s, "hostport := u.Host") {
+	// the two local constants, under whatever name the case bodies use them
+	if _, ok := ports[amu.Actual("httpPort")]; !ok {
+		return fmt.Errorf("MatchURL: constant for the http port not found")
+	}
+	if _, ok := ports[amu.Actual("httpsPort")]; !ok {
+		return fmt.Errorf("MatchURL: constant for the https port not found")
+	}
+	w.DefN("cred_http_port", uint64(ports[amu.Actual("httpPort")]))
+	w.DefN("cred_https_port", uint64(ports[amu.Actual("httpsPort")]))
+	if s := cr.Src(mu.Body); !amu.Contains(s, "switch u.Scheme") || !amu.HasSuffix(s, "return m.Match(hostport) }") ||
+		!amu.Contains(s, "hostport := u.Host") {
 		return fmt.Errorf("MatchURL: body not in the known shape")
 	}
 
@@ -119,15 +127,16 @@ func genG04Creds(repo string, w *Out) error {
 		}
 		return true
 	})
+	anm := newAlpha(nm, "credentials", "log", "m", "i", "hpu", "withRowInfo", "err", "hostport", "ok")
 	want := []string{`hpu.Host == "*" && hpu.Port == "0"`, `hpu.Host == "*"`, `hpu.Port == "0"`, "default"}
-	if strings.Join(cases, " | ") != strings.Join(want, " | ") {
+	if !anm.Eq(strings.Join(want, " | "), strings.Join(cases, " | ")) {
 		return fmt.Errorf("NewCredentialsMatcher: switch cases %q, expected %q", cases, want)
 	}
-	if err := g04Need("NewCredentialsMatcher", cr.CallsIn(nm.Body), "net.JoinHostPort(hpu.Host, hpu.Port)", "hpu.Validate()"); err != nil {
+	if err := anm.Need("NewCredentialsMatcher", cr.CallsIn(nm.Body), "net.JoinHostPort(hpu.Host, hpu.Port)", "hpu.Validate()"); err != nil {
 		return err
 	}
 	for _, a := range []string{"m.global = hpu.Userinfo", "m.port[hpu.Port] = hpu.Userinfo", "m.host[hpu.Host] = hpu.Userinfo", "m.hostport[hostport] = hpu.Userinfo"} {
-		if !strings.Contains(cr.Src(nm.Body), a) {
+		if !anm.Contains(cr.Src(nm.Body), a) {
 			return fmt.Errorf("NewCredentialsMatcher: assignment %q not found", a)
 		}
 	}
@@ -141,25 +150,30 @@ func genG04Creds(repo string, w *Out) error {
 	if err != nil {
 		return err
 	}
+	adr := newAlpha(dr, "d", "ctx", "network", "addr", "conn", "err", "pbw", "pbr", "req", "u", "pass", "auth", "headers", "cancel", "resCh", "errCh", "res")
+	// bind the request variable from its construction
+	if s := dv.Src(dr.Body); !adr.Contains(s, "req := http.Request{ Method: http.MethodConnect") {
+		return fmt.Errorf("dialvia DialContextR: construction of the CONNECT request not in the known shape")
+	}
 	var hdrOps []string
 	for _, c := range dv.CallsIn(dr.Body) {
 		switch {
-		case c == `req.Header.Add("User-Agent", "")`:
+		case adr.Eq(`req.Header.Add("User-Agent", "")`, c):
 			hdrOps = append(hdrOps, "add-user-agent")
-		case strings.HasPrefix(c, `req.Header.Add("Proxy-Authorization", "Basic "+base64.StdEncoding.EncodeToString(`):
+		case adr.HasPrefix(c, `req.Header.Add("Proxy-Authorization", "Basic "+base64.StdEncoding.EncodeToString(`):
 			hdrOps = append(hdrOps, "add-proxy-authorization")
-		case strings.HasPrefix(c, `req.Header.Set("Proxy-Authorization", "Basic "+base64.StdEncoding.EncodeToString(`):
+		case adr.HasPrefix(c, `req.Header.Set("Proxy-Authorization", "Basic "+base64.StdEncoding.EncodeToString(`):
 			hdrOps = append(hdrOps, "set-proxy-authorization")
-		case c == "maps.Copy(req.Header, d.ProxyConnectHeader)":
+		case adr.Eq("maps.Copy(req.Header, d.ProxyConnectHeader)", c):
 			hdrOps = append(hdrOps, "copy-connect-header")
-		case c == "maps.Copy(req.Header, headers)":
+		case adr.Eq("maps.Copy(req.Header, headers)", c):
 			hdrOps = append(hdrOps, "copy-dynamic-header")
-		case strings.HasPrefix(c, "req.Header.") || strings.HasPrefix(c, "maps.Copy(req.Header"):
+		case adr.HasPrefix(c, "req.Header.") || adr.HasPrefix(c, "maps.Copy(req.Header"):
 			return fmt.Errorf("dialvia DialContextR: unknown header operation %q", c)
 		}
 	}
 	w.DefStrList("dialvia_header_ops", hdrOps)
-	if err := g04Need("dialvia DialContextR conditions", g04IfConds(dv, dr.Body), "u := d.proxyURL.User; u != nil"); err != nil {
+	if err := adr.Need("dialvia DialContextR conditions", g04IfConds(dv, dr.Body), "u := d.proxyURL.User; u != nil"); err != nil {
 		return err
 	}
 
@@ -173,15 +187,16 @@ func genG04Creds(repo string, w *Out) error {
 	if err != nil {
 		return err
 	}
+	ahf := newAlpha(hf, "p", "req", "err", "ctx")
 	forceIdx, modIdx, fixIdx := -1, -1, -1
 	for i, st := range hf.Body.List {
 		src := pcf.Src(st)
 		switch {
-		case src == "p.fixRequestScheme(req)":
+		case ahf.Eq("p.fixRequestScheme(req)", src):
 			fixIdx = i
-		case strings.HasPrefix(src, "if p.mitm {") && strings.Contains(src, `req.URL.Scheme = "https"`):
+		case ahf.HasPrefix(src, "if p.mitm {") && ahf.Contains(src, `req.URL.Scheme = "https"`):
 			forceIdx = i
-		case strings.HasPrefix(src, "if err := p.modifyRequest(req); err != nil {"):
+		case ahf.HasPrefix(src, "if err := p.modifyRequest(req); err != nil {"):
 			modIdx = i
 		}
 	}
@@ -202,7 +217,7 @@ func genG04Creds(repo string, w *Out) error {
 	}
 	s := pcn.Src(ch.Body)
 	switch {
-	case strings.Contains(s, "d.ProxyConnectHeader = req.Header.Clone()"):
+	case newAlpha(ch, "p", "req", "proxyURL", "res", "conn", "err", "ctx", "d", "tr", "ok").Contains(s, "d.ProxyConnectHeader = req.Header.Clone()"):
 		w.DefStr("connect_header_source", "req.Header.Clone()")
 	default:
 		return fmt.Errorf("connectHTTP: d.ProxyConnectHeader assignment not in the known shape")
